@@ -31,6 +31,141 @@ def require_attrs(p, cls_qual, names):
         raise AnchorError('%s.__init__ does not initialise %s (attribute renamed?)' % (cls_qual, ', '.join(missing)))
 
 
+# ---------------------------------------------------------------------------
+# locals that ARE a bound method: the de-aliased view of a class
+# ---------------------------------------------------------------------------
+
+def _binding_counts(fnode):
+    """name -> number of ways it is bound anywhere under fnode (2 = more than we want to reason about)."""
+    n = {}
+
+    def bump(name, k=1):
+        n[name] = n.get(name, 0) + k
+
+    for x in ast.walk(fnode):
+        if isinstance(x, ast.Name) and isinstance(x.ctx, (ast.Store, ast.Del)):
+            bump(x.id)
+        elif isinstance(x, (ast.Global, ast.Nonlocal)):
+            for nm in x.names:
+                bump(nm, 2)
+        elif isinstance(x, ast.ExceptHandler) and x.name:
+            bump(x.name)
+        elif isinstance(x, (ast.FunctionDef, ast.AsyncFunctionDef, ast.ClassDef)) and x is not fnode:
+            bump(x.name, 2)
+        elif isinstance(x, ast.alias):
+            bump((x.asname or x.name).split('.')[0], 2)
+        elif isinstance(x, ast.arg) and not any(x is a for a in ast.walk(fnode.args)):
+            bump(x.arg, 2)          # a parameter of a nested def / lambda shadows the name
+        elif isinstance(x, (ast.MatchAs, ast.MatchStar)) and x.name:
+            bump(x.name, 2)
+        elif isinstance(x, ast.MatchMapping) and x.rest:
+            bump(x.rest, 2)
+    return n
+
+
+def _stored_self_attrs(cls: Class, skip=()):
+    out = set()
+    for m in cls.methods.values():
+        if m.name in skip:
+            continue
+        for x in ast.walk(m.node):
+            if isinstance(x, ast.Attribute) and isinstance(x.ctx, (ast.Store, ast.Del)) and dotted(x.value) == 'self':
+                out.add(x.attr)
+            if isinstance(x, ast.Call) and isinstance(x.func, ast.Name) and x.func.id in ('setattr', 'delattr'):
+                out.add('*')
+    return out
+
+
+def dealiased_view(p, cls: Class, inner_methods=()) -> Class:
+    """A view of `cls` (same qualified name) whose methods have every local that IS a bound method written out again:
+    `read = self.read` ... `read(n)` reads as `self.read(n)`, `append = lines.append` ... `append(x)` as `lines.append(x)`,
+    `raw_read = self.stream.read` as `self.stream.read` (k3-c07-4: the lookups hoisted out of the loops of readlines() /
+    exhaust()).  A local qualifies when it is bound exactly once in the method, by a plain assignment, is no parameter, and
+    the expression bound is stable for the duration of the call:
+      * `self.<m>` with <m> a plain method of the class that nothing in the class stores into;
+      * `self.<a>.<name>` with <a> an attribute that only the constructor stores, and the local used only as a callee
+        (or <name> one of `inner_methods`, names known to be methods of the wrapped object: then the local may also be
+        handed on as a callback, `target = self.stream.read; self._read(size, target)`);
+      * `<local>.<name>` with <local> a parameter / local that is itself bound at most once, the local used only as a callee.
+    The assignment becomes `pass`, every load of the local the expression.  Methods without such a local are shared with the
+    class; `cls` itself is returned when no method has one."""
+    import copy
+    cache = p.__dict__.setdefault('_c07_dealiased', {})
+    if cls.qual in cache:
+        return cache[cls.qual]
+    inner_methods = frozenset(inner_methods)
+    stored_any = _stored_self_attrs(cls)
+    stored_later = _stored_self_attrs(cls, skip=('__init__',))
+    reflective = '*' in stored_any
+    methods = {}
+    changed = False
+    for name, f in cls.methods.items():
+        methods[name] = f
+        if reflective or not any(isinstance(x, (ast.Assign, ast.AnnAssign)) and isinstance(getattr(x, 'value', None), ast.Attribute)
+                                 for x in ast.walk(f.node)):
+            continue
+        node = copy.deepcopy(f.node)
+        counts = _binding_counts(node)
+        params = {a.arg for a in ast.walk(node.args) if isinstance(a, ast.arg)}
+        parent = enclosing_map(node)
+        aliases = {}
+        for st in ast.walk(node):
+            if not (isinstance(st, (ast.Assign, ast.AnnAssign)) and isinstance(getattr(st, 'value', None), ast.Attribute)):
+                continue
+            tg = st.targets if isinstance(st, ast.Assign) else [st.target]
+            if len(tg) != 1 or not isinstance(tg[0], ast.Name):
+                continue
+            L, e = tg[0].id, st.value
+            if counts.get(L) != 1 or L in params:
+                continue
+            loads = [x for x in ast.walk(node) if isinstance(x, ast.Name) and x.id == L and isinstance(x.ctx, ast.Load)]
+            only_called = all(isinstance(parent.get(id(x)), ast.Call) and parent[id(x)].func is x for x in loads)
+            ch = dotted(e)
+            ok = False
+            if ch is not None and ch.count('.') == 1 and ch.startswith('self.'):
+                m = cls.methods.get(e.attr)
+                ok = m is not None and not m.is_property() and not m.is_setter() and not any(
+                    d in ('staticmethod', 'classmethod') for d in m.decorators) and e.attr not in stored_any
+            elif ch is not None and ch.count('.') == 2 and ch.startswith('self.'):
+                a = e.value.attr
+                ok = (only_called or e.attr in inner_methods) and a not in stored_later and a not in cls.methods
+            elif isinstance(e.value, ast.Name) and e.value.id != 'self':
+                base = e.value.id
+                ok = only_called and base != L and (counts.get(base, 0) == 1 or (base in params and counts.get(base, 0) == 0))
+            if ok:
+                aliases[L] = (e, st)
+        if not aliases:
+            continue
+
+        class _Sub(ast.NodeTransformer):
+            def visit_Name(self, x):
+                if isinstance(x.ctx, ast.Load) and x.id in aliases:
+                    return ast.copy_location(copy.deepcopy(aliases[x.id][0]), x)
+                return x
+
+            def generic_visit(self, x):
+                if any(x is st for _e, st in aliases.values()):
+                    return ast.copy_location(ast.Pass(), x)
+                return super().generic_visit(x)
+
+        node = ast.fix_missing_locations(_Sub().visit(node))
+        g = Func(node, f.qual, f.module, f.cls, f.parent)
+        g.nested = f.nested
+        g.origin = f
+        g.dealiased = sorted(aliases)
+        methods[name] = g
+        changed = True
+    view = cls
+    if changed:
+        view = copy.copy(cls)
+        view.methods = methods
+        for g in methods.values():
+            if getattr(g, 'origin', None) is not None:
+                g.cls = view
+    cache[cls.qual] = view
+    return view
+
+
 class Verdicts:
     """Aggregates per-path verdicts into one obligation per (function, kind);
     a failing construct is reported once however many paths cross it."""
@@ -75,6 +210,14 @@ class DelEnv(Env):
         e = Env.fork(self)
         e.__class__ = self.__class__
         return e
+
+    def eval(self, e):
+        # `(chunk := self.read(n))`: the value of the expression, bound to the local on the way
+        if isinstance(e, ast.NamedExpr) and isinstance(e.target, ast.Name):
+            v = Env.eval(self, e.value)
+            self.assign(e.target, v)
+            return v
+        return Env.eval(self, e)
 
     def exec(self, s):
         if isinstance(s, ast.Delete) and all(isinstance(t, ast.Name) for t in s.targets):
